@@ -669,7 +669,7 @@ func crashPoints(ctx context.Context, rec *recorder, sc *Scenario, pr *planRun, 
 		}
 		s.emit(0, func() ev {
 			return ev{"ev": "Config", "objs": pr.descs, "blocks": pr.blocks, "retries": sc.Shape.Retries, "cretries": sc.Shape.CRetries, "mode": "crash",
-				"tag": sc.Tag, "nplans": 1, "crashk": ck, "crashj": cj, "fn": sc.Fn}
+				"tag": sc.Tag, "nplans": 1, "crashk": ck, "crashj": cj, "fn": sc.Fn, "mshape": modelShape(sc.Shape)}
 		})
 		s.emit(0, func() ev {
 			return ev{"ev": "Crash", "snap": snapshot(pre, pr.nm), "reason": pre.Reason.String(), "k": ck, "j": cj, "base": sc.baseStatus, "old": false, "recovery": true, "ages": 0}
